@@ -326,3 +326,195 @@ def replay_l1(pid, path, binary):
 
 for _p in L1_PLAN:
     REGISTRY[_p] = check_l1
+
+
+# ============================================================================================== L0 (function level)
+
+def judge_l0(pid, outs, spec, modules, name, nproc=None):
+    """validate recorded function evaluations with a Trace_* specification, in parallel chunks"""
+    nproc = max(1, min(nproc or vlib.NCPU, len(outs) // 2000 + 1))
+    d = vlib.sub("l0j")
+    paths = []
+    for i in range(nproc):
+        pth = os.path.join(d, "%s-%d.ndjson" % (name, i))
+        with open(pth, "w") as fh:
+            for o in outs[i::nproc]:
+                fh.write(json.dumps(o, separators=(",", ":")) + "\n")
+        paths.append(pth)
+    viols = []
+    with cf.ThreadPoolExecutor(nproc) as ex:
+        docs = list(ex.map(lambda a: vlib.tlc_trace(a[1], "%s-%d" % (name, a[0]), spec=spec, modules=modules), enumerate(paths)))
+    for i, doc in enumerate(docs):
+        chunk = outs[i::nproc]
+        for v in doc["viol"]:
+            viols.append({"tr": v["tr"], "i": v["i"], "tags": sorted(v["tags"]), "line": chunk[v["i"] - 1]})
+    return viols
+
+
+def report_l0(pid, viols, mk_replay):
+    infra = [v for v in viols if any(t.startswith("INFRA:") for t in v["tags"])]
+    if infra:
+        raise Infra("reference inconsistent: %s" % infra[0])
+    known = vlib.load_known()
+    mine = [v for v in viols if any(t.startswith(pid + ":") for t in v["tags"])]
+    n = 0
+    seen = set()
+    for v in mine:
+        kf = match_known(known, pid, {"tags": v["tags"], "line": {"e": v["line"]}})
+        if kf:
+            if kf["id"] not in seen:
+                seen.add(kf["id"])
+                print("KNOWN-FINDING: property=%s %s" % (pid, kf["what"]))
+            continue
+        n += 1
+        if n <= 5:
+            path = vlib.save_replay(pid, re.sub(r"[^A-Za-z0-9_-]", "_", str(v["tr"]))[:60] + "-%d" % n, mk_replay(v))
+            for t in v["tags"]:
+                log("  rejected: %s  (%s)" % (t, json.dumps({k: v["line"][k] for k in list(v["line"])[:8]})[:300]))
+            print("VIOLATION property=%s replay=%s" % (pid, path))
+    return n
+
+
+def check_c14(pid, replay=None):
+    import random
+    t0 = time.time()
+    thorough = vlib.tier() == "thorough"
+    binary = vlib.build_test_binary("internal/gtpv1")
+    mods = ["GtpuEnc.tla"]
+    if replay:
+        with open(replay) as fh:
+            vec = json.load(fh)["vector"]
+        fout, info = vlib.run_l0(binary, "TestVerifGtpu", [vec], "replay")
+        viols = judge_l0(pid, vlib.read_ndjson(fout), "Trace_Gtpu", mods, "c14r")
+        if any(t.startswith("C14:") for v in viols for t in v["tags"]):
+            print("VIOLATION property=%s replay=%s" % (pid, replay))
+            return 1
+        log("replay: accepted on the current tree")
+        return 0
+    vecs, st = vlib.tlc_vectors("MC_Gtpu.tla", "MC_Gtpu.cfg", mods, "c14")
+    log("MC_Gtpu: %d states (reference well-formed on all of them) in %.0fs" % (st["distinct"], st["wall"]))
+    rng = random.Random(vlib.seed())
+    for i, v in enumerate(vecs):
+        v["id"] = "mc-%d" % i
+        v["pseed"] = i
+    nrand = 200000 if thorough else 20000
+    rnd = []
+    for i in range(nrand):
+        ext = rng.random() < 0.7
+        rnd.append({"id": "rnd-%d" % i, "teid": [rng.randrange(256) for _ in range(4)], "ext": ext,
+                    "ptype": rng.randrange(16) if ext else 0, "qfi": rng.randrange(64) if ext else 0,
+                    "plen": rng.choice([rng.randrange(0, 64), rng.randrange(0, 2000), rng.randrange(1390, 1510)]), "pseed": rng.randrange(1 << 30)})
+    if not thorough:
+        # quick: all boundary payload lengths below 16 octets for every QFI / PDU type, a seeded third of the long ones
+        vecs = [v for v in vecs if v["plen"] < 16 or rng.random() < 0.34]
+    inputs = vecs + rnd
+    fout, info = vlib.run_l0(binary, "TestVerifGtpu", inputs, "c14")
+    if info["rc"] != 0:
+        raise Infra("gtpu executor failed: " + info["tail"])
+    outs = vlib.read_ndjson(fout)
+    if len(outs) != len(inputs):
+        raise Infra("gtpu executor: %d of %d vectors evaluated" % (len(outs), len(inputs)))
+    viols = judge_l0(pid, outs, "Trace_Gtpu", mods, "c14")
+    n = report_l0(pid, viols, lambda v: {"property": pid, "kind": "gtpu", "tags": v["tags"], "vector": {k: v["line"][k] for k in ("id", "teid", "ext", "ptype", "qfi", "plen", "pseed")}, "recorded": v["line"]})
+    cov = {"states": st["distinct"], "transitions": st["generated"], "traces_validated_against_impl": len(outs),
+           "samples": [{k: o[k] for k in ("teid", "ext", "ptype", "qfi", "plen", "hex")} | {"hex": o["hex"][:40]} for o in (outs[0], outs[len(outs) // 2], outs[-1])],
+           "exhaustive": thorough, "mc_vectors": len(vecs), "random_vectors": len(rnd),
+           "domain": "QFI 0..63 x PDU type 0..15 x ext x 5 TEID classes x 14 payload lengths (0..9, 1399..1500); random: TEID 32 bit, payload 0..2000",
+           "checker_cmd": "tlc MC_Gtpu.tla (INVARIANT RefWellFormed); tlc Trace_Gtpu.tla"}
+    vlib.write_evidence(pid, "model_checking", cov, time.time() - t0, n, [
+        "GtpuEnc.tla transcribes TS 29.281 5.1/5.2.1 and TS 38.415 5.5.2 for flags 0x34; its WellFormed reading is checked against its own encoder by TLC",
+        "payload bytes are opaque to the reference (position, length and identity are checked)"])
+    return 1 if n else 0
+
+
+REGISTRY["C14"] = check_c14
+
+
+# ---------------------------------------------------------------------------------------------- C19 flag octets
+
+FLAG_RUNS_QUICK = [("aa1", 0, 255, 1), ("aa2", 0, 65535, 1), ("rt2", 0, 65535, 3), ("rt3", 0, 16777215, 331),
+                   ("urt", 0, 4194303, 97), ("map", 0, 262143, 11), ("vm", 0, 127, 1)]
+FLAG_RUNS_THOROUGH = [("aa1", 0, 255, 1), ("aa2", 0, 65535, 1), ("rt2", 0, 65535, 1), ("rt3", 0, 262143, 1), ("rt3", 262144, 16777215, 53),
+                      ("urt", 0, 4194303, 7), ("map", 0, 262143, 1), ("vm", 0, 127, 1)]
+
+
+def check_c19(pid, replay=None):
+    import random
+    t0 = time.time()
+    thorough = vlib.tier() == "thorough"
+    binary = vlib.build_test_binary("internal/report")
+    mods = ["Flags.tla"]
+    tables = None
+    if replay:
+        with open(replay) as fh:
+            vec = json.load(fh)["vector"]
+        fout, info = vlib.run_l0(binary, "TestVerifFlags", [vec], "replay")
+        viols = judge_l0(pid, vlib.read_ndjson(fout), "Trace_Flags", mods, "c19r")
+        if any(t.startswith("C19:") for v in viols for t in v["tags"]):
+            print("VIOLATION property=%s replay=%s" % (pid, replay))
+            return 1
+        log("replay: accepted on the current tree")
+        return 0
+    runs = FLAG_RUNS_THOROUGH if thorough else FLAG_RUNS_QUICK
+    vecs, states, trans = [], 0, 0
+
+    def one(r):
+        f, lo, hi, stride = r
+        cfg = 'SPECIFICATION Spec\nCONSTANTS\n F = "%s"\n Lo = %d\n Hi = %d\n Stride = %d\nINVARIANT RoundTrip\nINVARIANT MapOk\nCHECK_DEADLOCK FALSE\n' % (f, lo, hi, stride)
+        return vlib.tlc_vectors("MC_Flags.tla", "MC.cfg", mods, "c19-%s-%d" % (f, lo), cfg_text=cfg, workers=2), f
+
+    with cf.ThreadPoolExecutor(len(runs)) as ex:
+        for (vs, st), f in ex.map(one, runs):
+            states += st["distinct"]
+            trans += st["generated"]
+            vecs += vs
+    # the tables, as the specification states them (printed once per TLC run)
+    d = vlib.stage_spec(mods + ["MC_Flags.tla"], "c19-tbl")
+    with open(os.path.join(d, "MC.cfg"), "w") as fh:
+        fh.write('SPECIFICATION Spec\nCONSTANTS\n F = "vm"\n Lo = 0\n Hi = 0\n Stride = 1\nCHECK_DEADLOCK FALSE\n')
+    out = subprocess.run(["tlc", "-workers", "1", "-metadir", os.path.join(d, "md"), "-config", "MC.cfg", "MC_Flags.tla"], cwd=d,
+                         env=vlib._tlc_env(), stdout=subprocess.PIPE, stderr=subprocess.STDOUT, text=True, timeout=300).stdout
+    m = re.search(r'^<<"TBL", "(.*)">>$', out, re.M)
+    if not m:
+        raise Infra("tables not exported by TLC:\n" + out[-2000:])
+    tables = json.loads(json.loads('"' + m.group(1) + '"'))
+    log("MC_Flags: %d words enumerated by TLC over %d configurations (reference round-trip holds)" % (len(vecs), len(runs)))
+    rng = random.Random(vlib.seed())
+    extra = []
+    for f, nbits, n in (("aa", 16, 2), ("rt", 24, 3), ("urt", 22, 3), ("map", 18, 3)):
+        for i in range(nbits):
+            extra.append({"f": f, "n": n, "w": 1 << i, "mnop": False})
+            for j in range(i):
+                extra.append({"f": f, "n": n, "w": (1 << i) | (1 << j), "mnop": False})
+        for _ in range(3000 if not thorough else 30000):
+            extra.append({"f": f, "n": n, "w": rng.randrange(1 << nbits), "mnop": False})
+    extra += [{"f": "aa", "n": 0, "w": 0, "mnop": False}, {"f": "rt", "n": 0, "w": 0, "mnop": False}, {"f": "rt", "n": 1, "w": 255, "mnop": False},
+              {"f": "aa", "n": 3, "w": 0x010203, "mnop": False}, {"f": "rt", "n": 4, "w": 0x01020304, "mnop": False}]
+    inputs = vecs + extra
+    for i, v in enumerate(inputs):
+        v["id"] = "%s-%d-%d" % (v["f"], v["n"], v["w"])
+        v["names"] = tables[v["f"]]
+    fout, info = vlib.run_l0(binary, "TestVerifFlags", inputs, "c19")
+    if info["rc"] != 0:
+        raise Infra("flags executor failed: " + info["tail"])
+    outs = vlib.read_ndjson(fout)
+    if len(outs) != len(inputs):
+        raise Infra("flags executor: %d of %d vectors evaluated" % (len(outs), len(inputs)))
+    for o in outs:
+        o.pop("names", None)
+    viols = judge_l0(pid, outs, "Trace_Flags", mods, "c19")
+    n = report_l0(pid, viols, lambda v: {"property": pid, "kind": "flags", "tags": v["tags"],
+                                         "vector": {k: v["line"][k] for k in ("id", "f", "n", "w", "mnop")} | {"names": tables[v["line"]["f"]]},
+                                         "recorded": v["line"]})
+    cov = {"states": states, "transitions": trans, "traces_validated_against_impl": len(outs),
+           "samples": [{k: o[k] for k in ("f", "n", "w", "set", "enc")} for o in (outs[3], outs[len(outs) // 2], outs[-6])],
+           "runs": [list(r) for r in runs], "explicit_vectors": len(extra), "exhaustive": thorough,
+           "tables": tables, "checker_cmd": "tlc MC_Flags.tla (INVARIANT RoundTrip, MapOk) per family; tlc Trace_Flags.tla"}
+    vlib.write_evidence(pid, "model_checking", cov, time.time() - t0, n, [
+        "Flags.tla transcribes TS 29.244 8.2.19, 8.2.26, 8.2.40, 8.2.41 by hand (independently of report.go)",
+        "REEMR has no usage-report trigger of the same name: nothing is required for it",
+        "quick tier strides over the 2^24 / 2^22 word spaces (plus all single bits and pairs); thorough enumerates the defined-bit spaces"])
+    return 1 if n else 0
+
+
+REGISTRY["C19"] = check_c19
